@@ -93,7 +93,10 @@ def _parse_rw(rest):
 
 def _apply_rw(text, rules, what, log):
     for (cnt, rx, repl) in rules:
-        text, n = re.subn(rx, repl, text, flags=re.S)
+        try:
+            text, n = re.subn(rx, repl, text, flags=re.S)
+        except re.error as e:
+            raise Undecided('bad rewrite regex %r => %r: %s' % (rx, repl, e))
         log.append({'in': what, 'regex': rx, 'replacement': repl, 'expected': cnt, 'matched': n})
         if cnt >= 0 and n != cnt:
             raise Undecided('rewrite %r in %s matched %d times, expected %d' % (rx, what, n, cnt))
